@@ -194,7 +194,7 @@ func (e *specEnv) eval(x ast.Expr) (sym.Expr, error) {
 		}
 		if id, ok := v.Fun.(*ast.Ident); ok {
 			var args []sym.Expr
-			if id.Name == "sum" && len(v.Args) == 3 && e.locals != nil {
+			if (id.Name == "sum" || id.Name == "exists") && len(v.Args) == 3 && e.locals != nil {
 				for _, a := range v.Args {
 					t, err := e.eval(a)
 					if err != nil {
@@ -202,7 +202,7 @@ func (e *specEnv) eval(x ast.Expr) (sym.Expr, error) {
 					}
 					args = append(args, t)
 				}
-				return sym.Call{Fn: "sum", Args: args}, nil
+				return sym.Call{Fn: id.Name, Args: args}, nil
 			}
 			if id.Name == "op" && len(v.Args) >= 1 {
 				// op("operator name", args...): a stateful closure or hand-written stage of the root, by name
